@@ -54,7 +54,10 @@ MUTANTS = [
     ("repair_snapshots: delete_list also in dry-run", sub1("commands/repair/snapshots.rs", r"if dry_run \{\s*info!\(\"would have removed \{\} snapshots\.\", state\.delete\.len\(\)\);\s*\} else \{", "{")),
     ("backup: archiver gets the undecorated backend", sub1("commands/backup.rs", r"Archiver::new\(be, index", "Archiver::new(repo.dbe().clone(), index")),
     ("save_file default bypasses the wrapper's own methods", sub1("backend/decrypt.rs", r"self\.hash_write_full\(F::TYPE, &data\)", "self.hash_write_full_uncompressed(F::TYPE, &data)")),
-    ("apply_config: handle config replaced only after save_config (seeded C15-1)", sub1("commands/config.rs", r"repo\.set_config\(new_config\.clone\(\)\);\s*save_config\(repo, new_config, \*repo\.dbe\(\)\.key\(\)\)\?;", "save_config(repo, new_config.clone(), *repo.dbe().key())?;\n        repo.set_config(new_config);")),
+    ("apply_config: handle config replaced only after save_config (seeded C15-1)", sub1("commands/config.rs", r"repo\.set_config\(new_config\.clone\(\)\);\s*if let Err\(err\) = save_config\(repo, new_config, (\*repo\.dbe\(\)\.key\(\))\) \{(.*?)return Err\(err\);\s*\}", r"if let Err(err) = save_config(repo, new_config.clone(), \1) {\2return Err(err);\n        }\n        repo.set_config(new_config);")),
+    ("apply_config: failure branch dropped (shape before the repair)", sub1("commands/config.rs", r"if let Err\(err\) = (save_config\(repo, new_config, \*repo\.dbe\(\)\.key\(\)\)) \{.*?return Err\(err\);\s*\}", r"\1?;")),
+    ("Indexer::save writes the pending file unconditionally", sub1("index/indexer.rs", r"if \(self\.file\.packs\.len\(\) \+ self\.file\.packs_to_delete\.len\(\)\) > 0 \{\s*(_ = self\.be\.save_file\(&self\.file\)\?;)\s*\}", r"\1")),
+    ("TreeModifier::finalize flushes also in dry-run", sub1("blob/tree/modify.rs", r"pub fn finalize\(self\) -> RusticResult<\(\)> \{\s*if !self\.dry_run \{(.*?)\}\s*Ok\(\(\)\)", r"pub fn finalize(self) -> RusticResult<()> {\1Ok(())")),
     ("repair_index: indexer.add_with outside the dry-run test (seeded C15-2)", sub1("commands/repair/index.rs", r"if !dry_run \{\s*(?://[^\n]*\n\s*)?(indexer\.write\(\)\.unwrap\(\)\.add_with\(pack, false\)\?;)\s*\}", r"\1")),
     ("harmless: a comment and a log line in prune", sub1("commands/prune.rs", r"let be = repo\.dbe\(\);\s*let prune_time", "let be = repo.dbe(); // c15 probe\n    info!(\"pruning\");\n    let prune_time")),
 ]
